@@ -315,11 +315,13 @@ def run(ctx):
             sig = 'C07:leftover-after-stop'
         elif fe.get('op') == 'rest':
             sig = 'C07:rest:pending-or-active-list'
+        elif fe.get('op') == 'crash':
+            sig = 'C07:crash:' + str(fe.get('what', '')).split('(')[0]
         else:
             sig = 'C07:%s:%s-after-%s' % (fe.get('op', 'end'), fe.get('name', fe.get('kind', '')), pe.get('name', pe.get('kind', pe.get('op', 'start'))))
         ctx.violation(sig, 'mode lifecycle execution (requests via %s) not explained by Modes spec at line %s: %s (prev %s) leak=%s' % (
             jobs[i][1], info.get('line'), fe, pe, traces[i].get('_leak')), {'job': list(jobs[i]), 'trace': traces[i], 'info': info})
-    ctx.assumptions += ['non-game modes with counters, timers, event/light/coil players; game modes are exercised in C06/C11',
+    ctx.assumptions += ['non-game modes with counters (delayed enable control event), timers, event/light/coil players; game modes are exercised in C06/C11',
                         'registry digest: event handlers, switch handlers, timed switch entries, mode delays/devices/stop methods, '
                         'machine delays, device delays and running flags; compared with a baseline taken after one warm-up cycle']
 
